@@ -707,8 +707,16 @@ def run(rep, tier):
         _c01.clause_first_error(facts, rep)
         from . import c15
         c15.clause_h(facts, rep)      # `v <= 0x1f` of the control-byte screening is an unsigned lane compare
+    # the whole in-place decoder, byte by byte, for escapes / closing quotes at every alignment to the vector blocks, and
+    # the rejected forms (sv/strdecode.py): 'the outcome never depends on the literal's length or its alignment'
+    from .. import strdecode
+    for cfg5 in ('K1', 'K3'):
+        try:
+            strdecode.clause(get_facts(cfg5), rep, tier)
+        except AnalysisBroken as ex:
+            rep.broken.append(str(ex))
     rep.trust('clang 14 front end and constant evaluator', 'Python str.encode("utf-8") as the RFC 3629 oracle', 'path enumeration is exhaustive for the loop-free handle_unicode_codepoint')
     rep.assumptions += [
         'decides the escape/hex tables, that no path of handle_unicode_codepoint encodes a surrogate or turns a pair into a BMP code point, UTF-8 encoding on boundary and sampled code points, the error classes, that bytes are consumed only behind a control-byte screening of the block they belong to, and the meaning of the StringBlock predicates and masks',
-        'does NOT decide the byte counts moved by the in-place copy loop across block alignments (value level); the simd wrapper operators ==, <= are taken as unsigned lane compares',
+        'E5.string-decode decides the in-place decoder on the enumerated bodies (escapes at every distance 0..2*VEC+1); the simd wrapper operators ==, <= , store are taken by contract (unsigned lane compares, lane-wise store)',
     ]
